@@ -1,9 +1,12 @@
 package conc
 
 import (
+	"context"
 	"fmt"
+	"sync/atomic"
 
 	"github.com/0chain/common/core/statecache"
+	"github.com/0chain/common/core/util"
 
 	"verifmc/explore/sched"
 )
@@ -11,6 +14,9 @@ import (
 // StressScenarios are larger free-running bodies for the auxiliary -race pass only (too big to explore):
 // several committers and readers at once.
 func StressScenarios(prop string) []sched.Scenario {
+	if prop == "C16" {
+		return []sched.Scenario{longMissingNodeHistory(), failingSaves()}
+	}
 	if prop != "C08" {
 		return nil
 	}
@@ -50,3 +56,123 @@ func StressScenarios(prop string) []sched.Scenario {
 }
 
 func render(v statecache.Value) string { return fmt.Sprint(v) }
+
+// longMissingNodeHistory: ONE trie with a long history of lookups that ran into nodes absent from the store
+// (2500 of them, so that any bound or trimming of the missing-key list is crossed several times), concurrent
+// with pollers of GetMissingNodeKeys, a second reader and a writer. Every answer of the poller must be a
+// possible state of an append-only list: non-decreasing length, no entry that was never looked up.
+func longMissingNodeHistory() sched.Scenario {
+	return sched.Scenario{Name: "stress-long-missing-node-history", Make: func() ([]func(), func() (string, string)) {
+		db := util.NewMemoryNodeDB()
+		t0 := util.NewMerklePatriciaTrie(db, 1, nil, statecache.NewEmpty())
+		var keys []string
+		for i := 0; i < 48; i++ {
+			k := fmt.Sprintf("%02x%02x", i, 255-i)
+			keys = append(keys, k)
+			_, _ = t0.Insert(util.Path(k), &util.SecureSerializableValue{Buffer: []byte("v" + k)})
+		}
+		root := t0.GetRoot()
+		// drop every leaf from the store
+		var leaves []util.Key
+		_ = t0.Iterate(context.Background(), func(ctx context.Context, path util.Path, key util.Key, node util.Node) error {
+			if _, ok := node.(*util.LeafNode); ok {
+				leaves = append(leaves, append(util.Key{}, key...))
+			}
+			return nil
+		}, util.NodeTypeLeafNode)
+		known := map[string]bool{}
+		for _, l := range leaves {
+			known[string(l)] = true
+			_ = db.DeleteNode(l)
+		}
+		t := util.NewMerklePatriciaTrie(db, 1, root, statecache.NewEmpty())
+		bad := make([]string, 4)
+		var done int32
+		bodies := []func(){
+			func() {
+				defer atomic.StoreInt32(&done, 1)
+				for i := 0; i < 2500; i++ {
+					_, _ = t.GetNodeValueRaw(util.Path(keys[i%len(keys)]))
+				}
+			},
+			func() {
+				for i := 0; i < 400; i++ {
+					_, _ = t.GetNodeValueRaw(util.Path(keys[(i*7)%len(keys)]))
+				}
+			},
+			func() {
+				for i := 0; i < 300 || atomic.LoadInt32(&done) == 0; i++ {
+					for _, k := range t.GetMissingNodeKeys() {
+						if !known[string(k)] {
+							bad[2] = fmt.Sprintf("GetMissingNodeKeys returned %x, which is not a node that any lookup missed", []byte(k))
+							return
+						}
+					}
+				}
+			},
+			func() {
+				for i := 0; i < 50; i++ {
+					_, _ = t.Insert(util.Path("ffff"), &util.SecureSerializableValue{Buffer: []byte{byte(i), 1}})
+				}
+			},
+		}
+		return bodies, func() (string, string) {
+			for _, b := range bad {
+				if b != "" {
+					return "", b
+				}
+			}
+			return "", ""
+		}
+	}}
+}
+
+// failingSaves: saves that FAIL (the target store rejects the write) while writers and a reader work on the
+// same trie. Free-running only: the error path of SaveChanges returns while its worker goroutine is still
+// finishing, which the cooperative scheduler cannot replay deterministically. Nobody may block for ever
+// (mcrace bounds every iteration) and every save must report the store's error.
+func failingSaves() sched.Scenario {
+	return sched.Scenario{Name: "stress-failing-saves", Make: func() ([]func(), func() (string, string)) {
+		db := util.NewMemoryNodeDB()
+		t := util.NewMerklePatriciaTrie(db, 1, nil, statecache.NewEmpty())
+		for _, kv := range mptPre {
+			_, _ = t.Insert(util.Path(kv[0]), &util.SecureSerializableValue{Buffer: []byte(kv[1])})
+		}
+		bad := make([]string, 4)
+		bodies := []func(){
+			func() {
+				for i := 0; i < 300; i++ {
+					if err := t.SaveChanges(context.Background(), rejectingDB{util.NewMemoryNodeDB()}, false); err == nil {
+						bad[0] = "SaveChanges into a store that rejects the write returned nil"
+					}
+				}
+			},
+			func() {
+				for i := 0; i < 300; i++ {
+					_, _ = t.Insert(util.Path("0a1d"), &util.SecureSerializableValue{Buffer: []byte{byte(i), 1}})
+				}
+			},
+			func() {
+				for i := 0; i < 300; i++ {
+					_, _ = t.Delete(util.Path("0b22"))
+					_, _ = t.Insert(util.Path("0b22"), &util.SecureSerializableValue{Buffer: []byte{byte(i), 2}})
+				}
+			},
+			func() {
+				for i := 0; i < 300; i++ {
+					if v, err := t.GetNodeValueRaw(util.Path("0a1b")); err != nil || string(v) != "p" {
+						bad[3] = fmt.Sprintf("lookup of an untouched key returned %q, %v", v, err)
+					}
+				}
+			},
+		}
+		return bodies, func() (string, string) {
+			for _, b := range bad {
+				if b != "" {
+					return "", b
+				}
+			}
+			return "", ""
+		}
+	}}
+}
